@@ -16,7 +16,10 @@ Event(ev) ==
       [] ev.ev = "ConsumerDone" -> ConsumerDone(ev.t)
       [] ev.ev = "EmitDone" -> EmitDone(ev.i, ev.n)
       [] ev.ev = "ObsBufs" -> (\A i \in In : buf[i] = ev.bufs[i]) /\ Same
-      [] ev.ev = "End" -> Same
+      \* after the drain every emit that is allowed to complete has completed (no lost wake-up)
+      [] ev.ev = "End" -> /\ \A i \in In, n \in Ns : est[i][n] # "woken"
+                          /\ \A i \in In, n \in Ns : (est[i][n] = "accepted" \/ (est[i][n] = "trigger" /\ trig[i][n] \notin busy)) => emitDone[i][n]
+                          /\ Same
       [] OTHER -> FALSE
 TraceNext ==
     \/ /\ l <= Len(T) /\ Event(T[l])
